@@ -45,6 +45,17 @@ def links_from_html(
         if canonicalize:
             url = canonicalize_url(url, strip_fragment=strip_fragment)
 
+            # NOTE: canonicalization decodes punycode, resolves dot segments and
+            # drops fragments: what comes out must still be an url
+            if not is_url(
+                url,
+                require_protocol=True,
+                tld_aware=True,
+                allow_spaces_in_path=True,
+                only_http_https=True,
+            ):
+                continue
+
         if url == base_url:
             continue
 
